@@ -318,16 +318,31 @@ async fn run_segment(w: &mut World, seg_idx: usize, spec: &str, is_last: bool) -
 
     let before = read_tables(w).await;
 
-    let node = p2panda::builder()
-        .database_url(&w.url())
-        .signing_key(w.keys[w.me].clone())
-        .ack_policy(policy)
-        .mdns_mode(MdnsDiscoveryMode::Disabled)
-        .network_id(w.network)
-        .spawn()
-        .await
-        .expect("node spawns");
-    let (tx, rx) = node.stream::<String>(w.topic).await.expect("stream");
+    // Opening the stream only reads; under heavy machine load the freshly spawned network actors
+    // occasionally refuse the first request, so spawning + opening is retried (no durable effect).
+    let mut attempt = 0;
+    let (node, tx, rx) = loop {
+        attempt += 1;
+        let node = p2panda::builder()
+            .database_url(&w.url())
+            .signing_key(w.keys[w.me].clone())
+            .ack_policy(policy)
+            .mdns_mode(MdnsDiscoveryMode::Disabled)
+            .network_id(w.network)
+            .spawn()
+            .await;
+        let err = match node {
+            Ok(node) => match node.stream::<String>(w.topic).await {
+                Ok((tx, rx)) => break (node, tx, rx),
+                Err(e) => format!("{e:?}"),
+            },
+            Err(e) => format!("{e:?}"),
+        };
+        if attempt >= 8 {
+            panic!("node/stream could not be started: {err}");
+        }
+        tokio::time::sleep(Duration::from_millis(250 * attempt)).await;
+    };
     let mut live = Live { tx, rx, next_import: 0 };
     let mut held: HashMap<u64, ProcessedOperation<String>> = HashMap::new();
 
